@@ -1553,3 +1553,11 @@ M('C20', 'element selection re-indexes the weights only when the shape changes',
   "                if isinstance(weighting, ArrayWeighting):\n                    weighting = NumpyTensorSpaceArrayWeighting(\n                        weighting.array[indices], weighting.exponent)",
   "                if (isinstance(weighting, ArrayWeighting) and\n                        arr.shape != self.shape):\n                    weighting = NumpyTensorSpaceArrayWeighting(\n                        weighting.array[indices], weighting.exponent)",
   'C20-R7e')
+M('C01', 'copy of column-major data wraps the original array', NPYF,
+  "        return self.space.element(self.data.copy())",
+  "        if self.data.flags.f_contiguous and not self.data.flags.c_contiguous:\n            return self.space.element(self.data, order='F')\n        return self.space.element(self.data.copy())",
+  'C01-R5L')
+M('C01', 'lincomb converts its scalars to field elements', 'odl/set/space.py',
+  "            self._lincomb(a, x1, b, x2, out)\n\n        return out",
+  "            self._lincomb(self.field.element(a), x1, self.field.element(b), x2, out)\n\n        return out",
+  'C01-R4t')
